@@ -260,6 +260,18 @@ func checkIO(name string, l *ioLog, w *World, si *storeIndex, q *bs.Query, fileF
 	if q.Bloom != nil {
 		be = q.Bloom.Expression
 	}
+	// a regex condition can only match rows that have its field path: filters that rule the
+	// path out rule the condition out (computed here from the tree, not with the library's helper)
+	if q.Regex != nil {
+		if g := regexFieldGuard(q.Regex.Expression); g != nil {
+			if be == nil {
+				be = g
+			} else {
+				both := bs.BloomExpression{ExpressionType: bs.BloomExpressionAnd, Children: []bs.BloomExpression{*be, *g}}
+				be = &both
+			}
+		}
+	}
 	opened := map[string]bool{}
 	for _, p := range opens {
 		opened[p] = true
@@ -541,4 +553,44 @@ func noLeafCase(o sweepOpts) CaseResult {
 		}
 	}
 	return res
+}
+
+// regexFieldGuard: the field-existence condition a regex tree implies (nil = none).
+func regexFieldGuard(e *bs.RegexExpression) *bs.BloomExpression {
+	if e == nil {
+		return nil
+	}
+	switch e.ExpressionType {
+	case bs.RegexExpressionCondition:
+		if e.Condition == nil {
+			return nil
+		}
+		f := bs.Field(e.Condition.Field)
+		return &f
+	case bs.RegexExpressionAnd:
+		var kids []bs.BloomExpression
+		for i := range e.Children {
+			if g := regexFieldGuard(&e.Children[i]); g != nil {
+				kids = append(kids, *g)
+			}
+		}
+		if len(kids) == 0 {
+			return nil
+		}
+		return &bs.BloomExpression{ExpressionType: bs.BloomExpressionAnd, Children: kids}
+	case bs.RegexExpressionOr:
+		var kids []bs.BloomExpression
+		for i := range e.Children {
+			g := regexFieldGuard(&e.Children[i])
+			if g == nil {
+				return nil // one branch implies nothing
+			}
+			kids = append(kids, *g)
+		}
+		if len(kids) == 0 {
+			return nil
+		}
+		return &bs.BloomExpression{ExpressionType: bs.BloomExpressionOr, Children: kids}
+	}
+	return nil
 }
